@@ -321,6 +321,31 @@ func exprString(e ast.Expr) string {
 	return "?"
 }
 
+// exprFull is exprString plus dereference, calls and constant indexes.
+func exprFull(e ast.Expr) string {
+	switch x := e.(type) {
+	case *ast.Ident:
+		return x.Name
+	case *ast.SelectorExpr:
+		return exprFull(x.X) + "." + x.Sel.Name
+	case *ast.StarExpr:
+		return "*" + exprFull(x.X)
+	case *ast.ParenExpr:
+		return exprFull(x.X)
+	case *ast.BasicLit:
+		return x.Value
+	case *ast.IndexExpr:
+		return exprFull(x.X) + "[" + exprFull(x.Index) + "]"
+	case *ast.CallExpr:
+		var as []string
+		for _, a := range x.Args {
+			as = append(as, exprFull(a))
+		}
+		return exprFull(x.Fun) + "(" + strings.Join(as, ", ") + ")"
+	}
+	return "?"
+}
+
 func providerCfgPrivate(repo string) (bool, error) {
 	_, f, err := ParseGoFile(repo, "pkg/mtls/tls_context_manager.go")
 	if err != nil {
@@ -689,14 +714,26 @@ func genListenerTokens(repo string) (string, error) {
 	if err != nil {
 		return "", err
 	}
-	inspFirst, idleStored := false, false
+	inspFirst, idleStored, dumpIsLive := false, false, false
+	// the fields of the running listener's config an in-place update assigns (rawConfig.<F> = lc.<F>); the model treats
+	// BindToPort, Type, Network, ReusePort, AccessLogs, DefaultReadBufferSize as NOT applied (lc_static)
+	var applied []string
+	staticFields := map[string]bool{"BindToPort": true, "Type": true, "Network": true, "AddrConfig": true, "ReusePort": true, "AccessLogs": true, "DefaultReadBufferSize": true}
 	if fd := FindFunc(hf, "connHandler", "AddOrUpdateListener"); fd != nil {
 		inspPos, mgrPos := token.NoPos, token.NoPos
+		setCalls := 0
 		ast.Inspect(fd.Body, func(n ast.Node) bool {
 			switch x := n.(type) {
 			case *ast.AssignStmt:
 				if len(x.Lhs) == 1 && len(x.Rhs) == 1 {
 					l, r := exprString(x.Lhs[0]), exprString(x.Rhs[0])
+					if lf, rf := exprFull(x.Lhs[0]), exprFull(x.Rhs[0]); strings.HasPrefix(lf, "rawConfig.") {
+						f := strings.TrimPrefix(strings.TrimPrefix(lf, "rawConfig."), "FilterChains[0].")
+						applied = append(applied, f)
+						if staticFields[f] || !strings.HasPrefix(rf, "lc.") {
+							ok = false // the update branch applies a field the model keeps static / from another source: the model must follow
+						}
+					}
 					if l == "rawConfig.Inspector" && r == "lc.Inspector" {
 						inspPos = x.Pos()
 					}
@@ -708,9 +745,17 @@ func genListenerTokens(repo string) (string, error) {
 				if exprString(x.Fun) == "mtls.NewTLSServerContextManager" && len(x.Args) == 1 && exprString(x.Args[0]) == "rawConfig" {
 					mgrPos = x.Pos()
 				}
+				// what is recorded for the dump: the running listener's own config
+				if exprString(x.Fun) == "configmanager.SetListenerConfig" && len(x.Args) == 1 {
+					setCalls++
+					dumpIsLive = exprFull(x.Args[0]) == "*al.listener.Config()"
+				}
 			}
 			return true
 		})
+		if setCalls != 1 {
+			ok = false
+		}
 		if inspPos == token.NoPos || mgrPos == token.NoPos {
 			ok = false
 		} else {
@@ -737,7 +782,8 @@ func genListenerTokens(repo string) (string, error) {
 	} else {
 		ok = false
 	}
-	fmt.Fprintf(&b, "Definition listener_flags : lflags := mkF %v %v %v.\n", inspFirst, idleStored, removeClears)
+	fmt.Fprintf(&b, "(* fields of the running listener's config assigned by an in-place update: %s *)\n", strings.Join(applied, " "))
+	fmt.Fprintf(&b, "Definition listener_flags : lflags := mkF %v %v %v %v.\n", inspFirst, idleStored, removeClears, dumpIsLive)
 	fmt.Fprintf(&b, "Definition ListenerTokens_translator_ok := %v.\n", ok)
 	return b.String(), nil
 }
